@@ -58,6 +58,15 @@ def cases(tier, seed):
             for f in FORMS3:
                 for _ in range(5):
                     out.append({"t": "B", "arity": 3, "klong": with_klong, "form": f, "args": [rng.choice(ARGS) for _ in range(3)]})
+            # parameters declared in another order than x,y,z: arguments are still passed by position
+            for f in FORMS2:
+                pool = NUMS if f in ("over", "eachpair") else ARGS
+                for _ in range(3):
+                    out.append({"t": "B", "arity": 2, "klong": with_klong, "form": f, "args": [rng.choice(pool), rng.choice(pool)], "names": ["y", "x"],
+                                "list": [rng.choice(NUMS) for _ in range(rng.randint(0, 5))]})
+            for f in FORMS3:
+                for names in (["z", "y", "x"], ["x", "z", "y"], ["y", "z", "x"]):
+                    out.append({"t": "B", "arity": 3, "klong": with_klong, "form": f, "args": [rng.choice(ARGS) for _ in range(3)], "names": names})
             out.append({"t": "B", "arity": 0, "klong": with_klong, "form": "direct", "args": []})
     # C: wrapper histories
     nc = 2500 if tier == "quick" else 40000
@@ -132,8 +141,9 @@ def _pure(arity):
     return lambda x, y, z: ("r3", x, y, z)
 
 
-def _mkfn(arity, with_klong, log, numeric):
-    from klongpy.types import KGSym
+def _mkfn(arity, with_klong, log, numeric, names=None):
+    """A Python callable that logs its positional arguments.  `names` are its parameter names: the canonical x,y,z or a
+    permutation of them (the first Klong argument goes to the first declared parameter whatever it is called)."""
     def ret(*a):
         if numeric:
             if arity == 1:
@@ -141,35 +151,12 @@ def _mkfn(arity, with_klong, log, numeric):
             if arity == 2:
                 return a[0] * 10 + a[1]
         return 1000 + len(log)
-    if arity == 0:
-        if with_klong:
-            def f(klong):
-                log.append(()); return ret()
-        else:
-            def f():
-                log.append(()); return ret()
-    elif arity == 1:
-        if with_klong:
-            def f(klong, x):
-                log.append((x,)); return ret(x)
-        else:
-            def f(x):
-                log.append((x,)); return ret(x)
-    elif arity == 2:
-        if with_klong:
-            def f(klong, x, y):
-                log.append((x, y)); return ret(x, y)
-        else:
-            def f(x, y):
-                log.append((x, y)); return ret(x, y)
-    else:
-        if with_klong:
-            def f(klong, x, y, z):
-                log.append((x, y, z)); return ret(x, y, z)
-        else:
-            def f(x, y, z):
-                log.append((x, y, z)); return ret(x, y, z)
-    return f
+    names = list(names or ["x", "y", "z"][:arity])
+    params = (["klong"] if with_klong else []) + names
+    src = "def f(%s):\n    log.append((%s))\n    return ret(%s)\n" % (", ".join(params), "".join(n + ", " for n in names), ", ".join(names))
+    ns = {"log": log, "ret": ret}
+    exec(src, ns)
+    return ns["f"]
 
 
 def _run_B(case, res):
@@ -177,7 +164,7 @@ def _run_B(case, res):
     ar, form, args = case["arity"], case["form"], case["args"]
     numeric = form in ("over", "eachpair")
     log = []
-    k["pf"] = _mkfn(ar, case["klong"], log, numeric)
+    k["pf"] = _mkfn(ar, case["klong"], log, numeric, case.get("names"))
     A = [render(a) for a in args]
     lst = case.get("list")
     exp_calls = None
@@ -266,10 +253,10 @@ def _run_B(case, res):
         else:
             text, exp_calls = "p::pf(%s;;);q::p(%s;);q(%s)" % (A[0], A[1], A[2]), full
     r = kl.ev(k, text)
-    res["show"] = {"text": text, "python_fn": "arity %d%s" % (ar, " +klong" if case["klong"] else ""), "calls_logged": len(log)}
+    res["show"] = {"text": text, "python_fn": "arity %d%s%s" % (ar, " +klong" if case["klong"] else "", " params " + ",".join(case["names"]) if case.get("names") else ""), "calls_logged": len(log)}
     res["counters"]["python_calls_logged"] = len(log)
     res["counters"]["form:" + form] = 1
-    sigbase = "pycall|arity%d|%s|%s" % (ar, "klong" if case["klong"] else "plain", form)
+    sigbase = "pycall|arity%d|%s%s|%s" % (ar, "klong" if case["klong"] else "plain", "|params:" + "".join(case["names"]) if case.get("names") else "", form)
     if exp_calls is None:
         return
     res["nontrivial"] = True
